@@ -228,7 +228,7 @@ func (x *xlator) translateDecl(pkg *pkgInfo, decl *ast.FuncDecl, fo *types.Func)
 	if gr := build.Default.GOROOT; strings.HasPrefix(rel, gr+"/") {
 		rel = "$GOROOT/" + strings.TrimPrefix(rel, gr+"/")
 	}
-	fmt.Fprintf(&b, "/-- Go: `%s` (%s:%d)", goName, rel, p.Line)
+	fmt.Fprintf(&b, "/-- Go: `%s` (%s)", goName, rel)
 	if info.mutates {
 		b.WriteString("; returns the receiver after the call first")
 	}
@@ -264,7 +264,7 @@ func (x *xlator) translateDecl(pkg *pkgInfo, decl *ast.FuncDecl, fo *types.Func)
 	if len(info.inout) != 0 {
 		mode += ", returns written slice argument"
 	}
-	x.summary = append(x.summary, fmt.Sprintf("%s  ⇐  %s (%s:%d)  [%s]", lean, goName, rel, p.Line, mode))
+	x.summary = append(x.summary, fmt.Sprintf("%s  ⇐  %s (%s)  [%s]", lean, goName, rel, mode))
 	return info
 }
 
